@@ -24,7 +24,7 @@ PROP = "C10"
 LEVEL = "fault_enumeration"
 
 TIERS = {
-    "quick": {"streams": 48, "runs": 9, "pairs": 6, "budget_s": None,
+    "quick": {"streams": 64, "runs": 24, "pairs": 8, "budget_s": None,
               "codegen_every": 0},
     "thorough": {"streams": 4000, "runs": 12, "pairs": 30, "budget_s": 15 * 60,
                  "codegen_every": 0},
